@@ -1,6 +1,7 @@
 import QmiModel.Model.Descriptor
 /-! GENERATED on every run by harness/props/c14.py (`translate`) from the live
-`TransportDescriptorParser` instances, the constructor signatures and the AST of `create_transport`.
+`TransportDescriptorParser` instances, the constructor signatures, the AST of `create_transport` and the ASTs of the
+`__init__` bodies (`super().__init__` chains and `_validate_*` helpers inlined, constants evaluated).
 Do not edit. -/
 namespace QmiModel.Gen.TransportTables
 open QmiModel.Descriptor
@@ -10,32 +11,86 @@ def serial : Iface :=
   { name := ['s', 'e', 'r', 'i', 'a', 'l'],
     positionals := [⟨['d', 'e', 'v', 'i', 'c', 'e'], .str, true⟩],
     keywords := [⟨['b', 'a', 'u', 'd', 'r', 'a', 't', 'e'], .int, false⟩, ⟨['b', 'y', 't', 'e', 's', 'i', 'z', 'e'], .int, false⟩, ⟨['p', 'a', 'r', 'i', 't', 'y'], .str, false⟩, ⟨['s', 't', 'o', 'p', 'b', 'i', 't', 's'], .float, false⟩, ⟨['r', 't', 's', 'c', 't', 's'], .bool, false⟩],
-    ctorLinux := some { cls := ['Q', 'M', 'I', '_', 'S', 'e', 'r', 'i', 'a', 'l', 'T', 'r', 'a', 'n', 's', 'p', 'o', 'r', 't'], kind := .serial, args := [(['d', 'e', 'v', 'i', 'c', 'e'], none), (['b', 'a', 'u', 'd', 'r', 'a', 't', 'e'], some (.int (115200))), (['b', 'y', 't', 'e', 's', 'i', 'z', 'e'], some (.int (8))), (['p', 'a', 'r', 'i', 't', 'y'], some (.str ['N'])), (['s', 't', 'o', 'p', 'b', 'i', 't', 's'], some (.flt ['1', '.', '0'])), (['r', 't', 's', 'c', 't', 's'], some (.bool false))] },
-    ctorWin := some { cls := ['Q', 'M', 'I', '_', 'S', 'e', 'r', 'i', 'a', 'l', 'T', 'r', 'a', 'n', 's', 'p', 'o', 'r', 't'], kind := .serial, args := [(['d', 'e', 'v', 'i', 'c', 'e'], none), (['b', 'a', 'u', 'd', 'r', 'a', 't', 'e'], some (.int (115200))), (['b', 'y', 't', 'e', 's', 'i', 'z', 'e'], some (.int (8))), (['p', 'a', 'r', 'i', 't', 'y'], some (.str ['N'])), (['s', 't', 'o', 'p', 'b', 'i', 't', 's'], some (.flt ['1', '.', '0'])), (['r', 't', 's', 'c', 't', 's'], some (.bool false))] } }
+    ctorLinux := some { cls := ['Q', 'M', 'I', '_', 'S', 'e', 'r', 'i', 'a', 'l', 'T', 'r', 'a', 'n', 's', 'p', 'o', 'r', 't'], args := [(['d', 'e', 'v', 'i', 'c', 'e'], none), (['b', 'a', 'u', 'd', 'r', 'a', 't', 'e'], some (.int (115200))), (['b', 'y', 't', 'e', 's', 'i', 'z', 'e'], some (.int (8))), (['p', 'a', 'r', 'i', 't', 'y'], some (.str ['N'])), (['s', 't', 'o', 'p', 'b', 'i', 't', 's'], some (.flt ['1', '.', '0'])), (['r', 't', 's', 'c', 't', 's'], some (.bool false))], prog := [
+        .validate ['d', 'e', 'v', 'i', 'c', 'e'] (.notDevice ['C', 'O', 'M'] ['/']),
+        .validate ['b', 'a', 'u', 'd', 'r', 'a', 't', 'e'] (.lt (1)),
+        .validate ['b', 'y', 't', 'e', 's', 'i', 'z', 'e'] (.or (.lt (5)) (.gt (8))),
+        .validate ['p', 'a', 'r', 'i', 't', 'y'] (.notInStrs [['N'], ['E'], ['O']]),
+        .validate ['s', 't', 'o', 'p', 'b', 'i', 't', 's'] (.notStopbits),
+        .validate ['r', 't', 's', 'c', 't', 's'] (.notBool),
+        .store ['d', 'e', 'v', 'i', 'c', 'e'] [['d', 'e', 'v', 'i', 'c', 'e']],
+        .store ['_', 'b', 'a', 'u', 'd', 'r', 'a', 't', 'e'] [['b', 'a', 'u', 'd', 'r', 'a', 't', 'e']],
+        .store ['_', 'b', 'y', 't', 'e', 's', 'i', 'z', 'e'] [['b', 'y', 't', 'e', 's', 'i', 'z', 'e']],
+        .store ['_', 'p', 'a', 'r', 'i', 't', 'y'] [['p', 'a', 'r', 'i', 't', 'y']],
+        .store ['_', 's', 't', 'o', 'p', 'b', 'i', 't', 's'] [['s', 't', 'o', 'p', 'b', 'i', 't', 's']],
+        .store ['_', 'r', 't', 's', 'c', 't', 's'] [['r', 't', 's', 'c', 't', 's']]] },
+    ctorWin := some { cls := ['Q', 'M', 'I', '_', 'S', 'e', 'r', 'i', 'a', 'l', 'T', 'r', 'a', 'n', 's', 'p', 'o', 'r', 't'], args := [(['d', 'e', 'v', 'i', 'c', 'e'], none), (['b', 'a', 'u', 'd', 'r', 'a', 't', 'e'], some (.int (115200))), (['b', 'y', 't', 'e', 's', 'i', 'z', 'e'], some (.int (8))), (['p', 'a', 'r', 'i', 't', 'y'], some (.str ['N'])), (['s', 't', 'o', 'p', 'b', 'i', 't', 's'], some (.flt ['1', '.', '0'])), (['r', 't', 's', 'c', 't', 's'], some (.bool false))], prog := [
+        .validate ['d', 'e', 'v', 'i', 'c', 'e'] (.notDevice ['C', 'O', 'M'] ['/']),
+        .validate ['b', 'a', 'u', 'd', 'r', 'a', 't', 'e'] (.lt (1)),
+        .validate ['b', 'y', 't', 'e', 's', 'i', 'z', 'e'] (.or (.lt (5)) (.gt (8))),
+        .validate ['p', 'a', 'r', 'i', 't', 'y'] (.notInStrs [['N'], ['E'], ['O']]),
+        .validate ['s', 't', 'o', 'p', 'b', 'i', 't', 's'] (.notStopbits),
+        .validate ['r', 't', 's', 'c', 't', 's'] (.notBool),
+        .store ['d', 'e', 'v', 'i', 'c', 'e'] [['d', 'e', 'v', 'i', 'c', 'e']],
+        .store ['_', 'b', 'a', 'u', 'd', 'r', 'a', 't', 'e'] [['b', 'a', 'u', 'd', 'r', 'a', 't', 'e']],
+        .store ['_', 'b', 'y', 't', 'e', 's', 'i', 'z', 'e'] [['b', 'y', 't', 'e', 's', 'i', 'z', 'e']],
+        .store ['_', 'p', 'a', 'r', 'i', 't', 'y'] [['p', 'a', 'r', 'i', 't', 'y']],
+        .store ['_', 's', 't', 'o', 'p', 'b', 'i', 't', 's'] [['s', 't', 'o', 'p', 'b', 'i', 't', 's']],
+        .store ['_', 'r', 't', 's', 'c', 't', 's'] [['r', 't', 's', 'c', 't', 's']]] } }
 
 /-- `UdpTransportDescriptorParser` and the classes `create_transport` builds from it -/
 def udp : Iface :=
   { name := ['u', 'd', 'p'],
     positionals := [⟨['h', 'o', 's', 't'], .str, true⟩, ⟨['p', 'o', 'r', 't'], .int, true⟩],
     keywords := [],
-    ctorLinux := some { cls := ['Q', 'M', 'I', '_', 'U', 'd', 'p', 'T', 'r', 'a', 'n', 's', 'p', 'o', 'r', 't'], kind := .udp, args := [(['h', 'o', 's', 't'], none), (['p', 'o', 'r', 't'], none)] },
-    ctorWin := some { cls := ['Q', 'M', 'I', '_', 'U', 'd', 'p', 'T', 'r', 'a', 'n', 's', 'p', 'o', 'r', 't'], kind := .udp, args := [(['h', 'o', 's', 't'], none), (['p', 'o', 'r', 't'], none)] } }
+    ctorLinux := some { cls := ['Q', 'M', 'I', '_', 'U', 'd', 'p', 'T', 'r', 'a', 'n', 's', 'p', 'o', 'r', 't'], args := [(['h', 'o', 's', 't'], none), (['p', 'o', 'r', 't'], none)], prog := [
+        .resolveLocalhost ['h', 'o', 's', 't'],
+        .validate ['h', 'o', 's', 't'] (.badHost),
+        .validate ['p', 'o', 'r', 't'] (.or (.lt (1)) (.gt (65535))),
+        .validate ['p', 'o', 'r', 't'] (.eq (35999)),
+        .store ['_', 'a', 'd', 'd', 'r', 'e', 's', 's'] [['h', 'o', 's', 't'], ['p', 'o', 'r', 't']]] },
+    ctorWin := some { cls := ['Q', 'M', 'I', '_', 'U', 'd', 'p', 'T', 'r', 'a', 'n', 's', 'p', 'o', 'r', 't'], args := [(['h', 'o', 's', 't'], none), (['p', 'o', 'r', 't'], none)], prog := [
+        .resolveLocalhost ['h', 'o', 's', 't'],
+        .validate ['h', 'o', 's', 't'] (.badHost),
+        .validate ['p', 'o', 'r', 't'] (.or (.lt (1)) (.gt (65535))),
+        .validate ['p', 'o', 'r', 't'] (.eq (35999)),
+        .store ['_', 'a', 'd', 'd', 'r', 'e', 's', 's'] [['h', 'o', 's', 't'], ['p', 'o', 'r', 't']]] } }
 
 /-- `TcpTransportDescriptorParser` and the classes `create_transport` builds from it -/
 def tcp : Iface :=
   { name := ['t', 'c', 'p'],
     positionals := [⟨['h', 'o', 's', 't'], .str, true⟩, ⟨['p', 'o', 'r', 't'], .int, true⟩],
     keywords := [⟨['c', 'o', 'n', 'n', 'e', 'c', 't', '_', 't', 'i', 'm', 'e', 'o', 'u', 't'], .float, false⟩],
-    ctorLinux := some { cls := ['Q', 'M', 'I', '_', 'T', 'c', 'p', 'T', 'r', 'a', 'n', 's', 'p', 'o', 'r', 't'], kind := .tcp, args := [(['h', 'o', 's', 't'], none), (['p', 'o', 'r', 't'], none), (['c', 'o', 'n', 'n', 'e', 'c', 't', '_', 't', 'i', 'm', 'e', 'o', 'u', 't'], some (.int (10)))] },
-    ctorWin := some { cls := ['Q', 'M', 'I', '_', 'T', 'c', 'p', 'T', 'r', 'a', 'n', 's', 'p', 'o', 'r', 't'], kind := .tcp, args := [(['h', 'o', 's', 't'], none), (['p', 'o', 'r', 't'], none), (['c', 'o', 'n', 'n', 'e', 'c', 't', '_', 't', 'i', 'm', 'e', 'o', 'u', 't'], some (.int (10)))] } }
+    ctorLinux := some { cls := ['Q', 'M', 'I', '_', 'T', 'c', 'p', 'T', 'r', 'a', 'n', 's', 'p', 'o', 'r', 't'], args := [(['h', 'o', 's', 't'], none), (['p', 'o', 'r', 't'], none), (['c', 'o', 'n', 'n', 'e', 'c', 't', '_', 't', 'i', 'm', 'e', 'o', 'u', 't'], some (.int (10)))], prog := [
+        .resolveLocalhost ['h', 'o', 's', 't'],
+        .validate ['h', 'o', 's', 't'] (.badHost),
+        .validate ['p', 'o', 'r', 't'] (.or (.lt (1)) (.gt (65535))),
+        .store ['_', 'a', 'd', 'd', 'r', 'e', 's', 's'] [['h', 'o', 's', 't'], ['p', 'o', 'r', 't']],
+        .store ['_', 'c', 'o', 'n', 'n', 'e', 'c', 't', '_', 't', 'i', 'm', 'e', 'o', 'u', 't'] [['c', 'o', 'n', 'n', 'e', 'c', 't', '_', 't', 'i', 'm', 'e', 'o', 'u', 't']]] },
+    ctorWin := some { cls := ['Q', 'M', 'I', '_', 'T', 'c', 'p', 'T', 'r', 'a', 'n', 's', 'p', 'o', 'r', 't'], args := [(['h', 'o', 's', 't'], none), (['p', 'o', 'r', 't'], none), (['c', 'o', 'n', 'n', 'e', 'c', 't', '_', 't', 'i', 'm', 'e', 'o', 'u', 't'], some (.int (10)))], prog := [
+        .resolveLocalhost ['h', 'o', 's', 't'],
+        .validate ['h', 'o', 's', 't'] (.badHost),
+        .validate ['p', 'o', 'r', 't'] (.or (.lt (1)) (.gt (65535))),
+        .store ['_', 'a', 'd', 'd', 'r', 'e', 's', 's'] [['h', 'o', 's', 't'], ['p', 'o', 'r', 't']],
+        .store ['_', 'c', 'o', 'n', 'n', 'e', 'c', 't', '_', 't', 'i', 'm', 'e', 'o', 'u', 't'] [['c', 'o', 'n', 'n', 'e', 'c', 't', '_', 't', 'i', 'm', 'e', 'o', 'u', 't']]] } }
 
 /-- `UsbTmcTransportDescriptorParser` and the classes `create_transport` builds from it -/
 def usbtmc : Iface :=
   { name := ['u', 's', 'b', 't', 'm', 'c'],
     positionals := [],
     keywords := [⟨['v', 'e', 'n', 'd', 'o', 'r', 'i', 'd'], .int, true⟩, ⟨['p', 'r', 'o', 'd', 'u', 'c', 't', 'i', 'd'], .int, true⟩, ⟨['s', 'e', 'r', 'i', 'a', 'l', 'n', 'r'], .str, true⟩],
-    ctorLinux := some { cls := ['Q', 'M', 'I', '_', 'P', 'y', 'U', 's', 'b', 'T', 'm', 'c', 'T', 'r', 'a', 'n', 's', 'p', 'o', 'r', 't'], kind := .usbtmc, args := [(['v', 'e', 'n', 'd', 'o', 'r', 'i', 'd'], none), (['p', 'r', 'o', 'd', 'u', 'c', 't', 'i', 'd'], none), (['s', 'e', 'r', 'i', 'a', 'l', 'n', 'r'], none)] },
-    ctorWin := some { cls := ['Q', 'M', 'I', '_', 'V', 'i', 's', 'a', 'U', 's', 'b', 'T', 'm', 'c', 'T', 'r', 'a', 'n', 's', 'p', 'o', 'r', 't'], kind := .usbtmc, args := [(['v', 'e', 'n', 'd', 'o', 'r', 'i', 'd'], none), (['p', 'r', 'o', 'd', 'u', 'c', 't', 'i', 'd'], none), (['s', 'e', 'r', 'i', 'a', 'l', 'n', 'r'], none)] } }
+    ctorLinux := some { cls := ['Q', 'M', 'I', '_', 'P', 'y', 'U', 's', 'b', 'T', 'm', 'c', 'T', 'r', 'a', 'n', 's', 'p', 'o', 'r', 't'], args := [(['v', 'e', 'n', 'd', 'o', 'r', 'i', 'd'], none), (['p', 'r', 'o', 'd', 'u', 'c', 't', 'i', 'd'], none), (['s', 'e', 'r', 'i', 'a', 'l', 'n', 'r'], none)], prog := [
+        .validate ['v', 'e', 'n', 'd', 'o', 'r', 'i', 'd'] (.or (.lt (0)) (.gt (65535))),
+        .validate ['p', 'r', 'o', 'd', 'u', 'c', 't', 'i', 'd'] (.or (.lt (0)) (.gt (65535))),
+        .store ['v', 'e', 'n', 'd', 'o', 'r', 'i', 'd'] [['v', 'e', 'n', 'd', 'o', 'r', 'i', 'd']],
+        .store ['p', 'r', 'o', 'd', 'u', 'c', 't', 'i', 'd'] [['p', 'r', 'o', 'd', 'u', 'c', 't', 'i', 'd']],
+        .store ['s', 'e', 'r', 'i', 'a', 'l', 'n', 'r'] [['s', 'e', 'r', 'i', 'a', 'l', 'n', 'r']]] },
+    ctorWin := some { cls := ['Q', 'M', 'I', '_', 'V', 'i', 's', 'a', 'U', 's', 'b', 'T', 'm', 'c', 'T', 'r', 'a', 'n', 's', 'p', 'o', 'r', 't'], args := [(['v', 'e', 'n', 'd', 'o', 'r', 'i', 'd'], none), (['p', 'r', 'o', 'd', 'u', 'c', 't', 'i', 'd'], none), (['s', 'e', 'r', 'i', 'a', 'l', 'n', 'r'], none)], prog := [
+        .validate ['v', 'e', 'n', 'd', 'o', 'r', 'i', 'd'] (.or (.lt (0)) (.gt (65535))),
+        .validate ['p', 'r', 'o', 'd', 'u', 'c', 't', 'i', 'd'] (.or (.lt (0)) (.gt (65535))),
+        .store ['v', 'e', 'n', 'd', 'o', 'r', 'i', 'd'] [['v', 'e', 'n', 'd', 'o', 'r', 'i', 'd']],
+        .store ['p', 'r', 'o', 'd', 'u', 'c', 't', 'i', 'd'] [['p', 'r', 'o', 'd', 'u', 'c', 't', 'i', 'd']],
+        .store ['s', 'e', 'r', 'i', 'a', 'l', 'n', 'r'] [['s', 'e', 'r', 'i', 'a', 'l', 'n', 'r']]] } }
 
 /-- `GpibTransportDescriptorParser` and the classes `create_transport` builds from it -/
 def gpib : Iface :=
@@ -43,19 +98,26 @@ def gpib : Iface :=
     positionals := [⟨['p', 'r', 'i', 'm', 'a', 'r', 'y', '_', 'a', 'd', 'd', 'r'], .int, true⟩],
     keywords := [⟨['b', 'o', 'a', 'r', 'd'], .int, false⟩, ⟨['s', 'e', 'c', 'o', 'n', 'd', 'a', 'r', 'y', '_', 'a', 'd', 'd', 'r'], .int, false⟩, ⟨['c', 'o', 'n', 'n', 'e', 'c', 't', '_', 't', 'i', 'm', 'e', 'o', 'u', 't'], .float, false⟩],
     ctorLinux := none,
-    ctorWin := some { cls := ['Q', 'M', 'I', '_', 'V', 'i', 's', 'a', 'G', 'p', 'i', 'b', 'T', 'r', 'a', 'n', 's', 'p', 'o', 'r', 't'], kind := .gpib, args := [(['p', 'r', 'i', 'm', 'a', 'r', 'y', '_', 'a', 'd', 'd', 'r'], none), (['b', 'o', 'a', 'r', 'd'], some (.none)), (['s', 'e', 'c', 'o', 'n', 'd', 'a', 'r', 'y', '_', 'a', 'd', 'd', 'r'], some (.none)), (['c', 'o', 'n', 'n', 'e', 'c', 't', '_', 't', 'i', 'm', 'e', 'o', 'u', 't'], some (.flt ['3', '0', '.', '0']))] } }
+    ctorWin := some { cls := ['Q', 'M', 'I', '_', 'V', 'i', 's', 'a', 'G', 'p', 'i', 'b', 'T', 'r', 'a', 'n', 's', 'p', 'o', 'r', 't'], args := [(['p', 'r', 'i', 'm', 'a', 'r', 'y', '_', 'a', 'd', 'd', 'r'], none), (['b', 'o', 'a', 'r', 'd'], some (.none)), (['s', 'e', 'c', 'o', 'n', 'd', 'a', 'r', 'y', '_', 'a', 'd', 'd', 'r'], some (.none)), (['c', 'o', 'n', 'n', 'e', 'c', 't', '_', 't', 'i', 'm', 'e', 'o', 'u', 't'], some (.flt ['3', '0', '.', '0']))], prog := [
+        .store ['_', 'p', 'r', 'i', 'm', 'a', 'r', 'y', '_', 'a', 'd', 'd', 'r'] [['p', 'r', 'i', 'm', 'a', 'r', 'y', '_', 'a', 'd', 'd', 'r']],
+        .store ['_', 'b', 'o', 'a', 'r', 'd'] [['b', 'o', 'a', 'r', 'd']],
+        .store ['_', 's', 'e', 'c', 'o', 'n', 'd', 'a', 'r', 'y', '_', 'a', 'd', 'd', 'r'] [['s', 'e', 'c', 'o', 'n', 'd', 'a', 'r', 'y', '_', 'a', 'd', 'd', 'r']],
+        .store ['_', 'c', 'o', 'n', 'n', 'e', 'c', 't', '_', 't', 'i', 'm', 'e', 'o', 'u', 't'] [['c', 'o', 'n', 'n', 'e', 'c', 't', '_', 't', 'i', 'm', 'e', 'o', 'u', 't']]] } }
 
 /-- `Vxi11TransportDescriptorParser` and the classes `create_transport` builds from it -/
 def vxi11 : Iface :=
   { name := ['v', 'x', 'i', '1', '1'],
     positionals := [⟨['h', 'o', 's', 't'], .str, true⟩],
     keywords := [],
-    ctorLinux := some { cls := ['Q', 'M', 'I', '_', 'V', 'x', 'i', '1', '1', 'T', 'r', 'a', 'n', 's', 'p', 'o', 'r', 't'], kind := .vxi11, args := [(['h', 'o', 's', 't'], none)] },
-    ctorWin := some { cls := ['Q', 'M', 'I', '_', 'V', 'x', 'i', '1', '1', 'T', 'r', 'a', 'n', 's', 'p', 'o', 'r', 't'], kind := .vxi11, args := [(['h', 'o', 's', 't'], none)] } }
+    ctorLinux := some { cls := ['Q', 'M', 'I', '_', 'V', 'x', 'i', '1', '1', 'T', 'r', 'a', 'n', 's', 'p', 'o', 'r', 't'], args := [(['h', 'o', 's', 't'], none)], prog := [
+        .validate ['h', 'o', 's', 't'] (.badHost),
+        .store ['_', 'h', 'o', 's', 't'] [['h', 'o', 's', 't']]] },
+    ctorWin := some { cls := ['Q', 'M', 'I', '_', 'V', 'x', 'i', '1', '1', 'T', 'r', 'a', 'n', 's', 'p', 'o', 'r', 't'], args := [(['h', 'o', 's', 't'], none)], prog := [
+        .validate ['h', 'o', 's', 't'] (.badHost),
+        .store ['_', 'h', 'o', 's', 't'] [['h', 'o', 's', 't']]] } }
 
 def env : Env :=
   { ifaces := [serial, udp, tcp, usbtmc, gpib, vxi11],
-    udpReserved := 35999,
     localhostAddr := ['1', '2', '7', '.', '0', '.', '0', '.', '1'] }
 
 end QmiModel.Gen.TransportTables
